@@ -201,12 +201,12 @@ theorem ilukRow_scale (c : K) (hc : c ≠ 0) (lfil n : Nat) (S : IlukState K) (h
     · rw [one_div, one_div, mul_inv]
 
 /-- invariant of the constructor loop needed by the simulation: finished `U` rows are strictly upper -/
-structure IlukInv (S : IlukState K) (i : Nat) : Prop where
+structure IlukScInv (S : IlukState K) (i : Nat) : Prop where
   sizeU : S.U.size = i
   upper : ∀ k, ∀ e ∈ S.U.getD k [], k < e.1
 
-theorem IlukInv.step (lfil n : Nat) (S S' : IlukState K) (i : Nat) (r : Row K) (h : IlukInv S i)
-    (hr : ilukRow lfil n S i r = .ok S') : IlukInv S' (i + 1) := by
+theorem IlukScInv.step (lfil n : Nat) (S S' : IlukState K) (i : Nat) (r : Row K) (h : IlukScInv S i)
+    (hr : ilukRow lfil n S i r = .ok S') : IlukScInv S' (i + 1) := by
   unfold ilukRow at hr
   simp only [] at hr
   split at hr
@@ -229,7 +229,7 @@ theorem IlukInv.step (lfil n : Nat) (S S' : IlukState K) (i : Nat) (r : Row K) (
         · rw [if_neg hic] at hcol; cases hcol
       · rw [getD_of_size_le _ _ _ (by simp; omega)] at he; cases he
 
-theorem ilukLoop_scale (c : K) (hc : c ≠ 0) (lfil : Nat) (A : CRS K) (len i : Nat) (S : IlukState K) (h : IlukInv S i) :
+theorem ilukLoop_scale (c : K) (hc : c ≠ 0) (lfil : Nat) (A : CRS K) (len i : Nat) (S : IlukState K) (h : IlukScInv S i) :
     ilukLoop lfil (scale A c) (List.range' i len) (scaleIlukState c S)
       = SetupOutcome.map (scaleIlukState c) (ilukLoop lfil A (List.range' i len) S) := by
   induction len generalizing i S with
@@ -243,13 +243,13 @@ theorem ilukLoop_scale (c : K) (hc : c ≠ 0) (lfil : Nat) (A : CRS K) (len i : 
     | undefinedInput => simp [SetupOutcome.map]
     | ok S' =>
       simp only [SetupOutcome.map]
-      exact ih (i + 1) S' (IlukInv.step lfil A.nrows S S' i (A.row i) h hr)
+      exact ih (i + 1) S' (IlukScInv.step lfil A.nrows S S' i (A.row i) h hr)
 
 /-- **ILU(k) of `c·A`** (`c ≠ 0`, NO hypothesis on `A`): same outcome, factors `L`, `c·U`, `c⁻¹·D` -/
 theorem ilukFactor_scale (c : K) (hc : c ≠ 0) (lfil : Nat) (A : CRS K) :
     ilukFactor lfil (scale A c) = SetupOutcome.map (scaleFactors c) (ilukFactor lfil A) := by
   unfold ilukFactor
-  have h0 : IlukInv ({ L := #[], U := #[], D := #[] } : IlukState K) 0 :=
+  have h0 : IlukScInv ({ L := #[], U := #[], D := #[] } : IlukState K) 0 :=
     ⟨rfl, fun k e he => by simp [Array.getD] at he⟩
   have := ilukLoop_scale c hc lfil A A.nrows 0 _ h0
   rw [← List.range_eq_range'] at this
